@@ -220,6 +220,7 @@ func (s *Stack) Stop() {
 	defer c()
 	_ = s.Manager.Stop(ctx)
 	s.cancel()
+	hx.ReleasePort(s.Cfg.Server.Port)
 }
 
 // Endpoint describes one configured endpoint in harness terms.
